@@ -39,7 +39,8 @@ def run_obligations(prop, obls, tier, seed):
         t0 = time.time()
         budget = o.get("budget", {}).get(tier, 240 if tier == "quick" else 1500)
         opts = {"seed": seed, "solver_timeout_ms": 30000, "params": o.get("params", {}).get(tier, {})}
-        s = explore(mir, core, (o["module"], o["func"]), opts=opts, time_budget_s=budget,
+        mir_o = mir_path(o["features"]) if o.get("features") else mir      # e.g. "full": curve + noise_xx compiled in
+        s = explore(mir_o, core, (o["module"], o["func"]), opts=opts, time_budget_s=budget,
                     max_paths=o.get("max_paths", 3000000))
         r = ObligationResult(oid="mirsym:" + o["name"], engine="mirsym", status="pass",
                              functions=[_short(f) for f in s["called"]], bounds=o.get("bounds", {}).get(tier, "") if isinstance(o.get("bounds"), dict) else o.get("bounds", ""),
